@@ -7,6 +7,7 @@ import (
 	"os"
 	"sort"
 	"sync"
+	"sync/atomic"
 	"testing"
 	"testing/synctest"
 	"time"
@@ -513,6 +514,22 @@ func (s *state) runSwarm(c *swCase) (res swResult) {
 			res.Echoed = string(b) == string(msg)
 			st.Close()
 		}()
+		// ... and stream opens whose context has ALREADY ended (cancelled, or a deadline in the past) on whatever
+		// connection exists by now: they fail, and give back what was reserved for them
+		for _, cc := range nd.sw.ConnsToPeer(kl.ID) {
+			dead, cancelDead := context.WithCancel(context.Background())
+			cancelDead()
+			past, cancelPast := context.WithDeadline(context.Background(), time.Now().Add(-time.Second))
+			for _, dctx := range []context.Context{dead, past} {
+				if st, err := cc.NewStream(dctx); err == nil {
+					st.Reset()
+				} else {
+					endedCtxOpens.Add(1)
+				}
+			}
+			cancelPast()
+			break
+		}
 		synctest.Wait()
 		fmu.Lock()
 		if first[0] != nil {
@@ -602,6 +619,8 @@ func (s *state) judgeSwarm(c *swCase, res *swResult) bool {
 	}
 	return ok
 }
+
+var endedCtxOpens atomic.Int64
 
 func (s *state) swarmCases() {
 	type cfg struct {
